@@ -202,3 +202,37 @@ theorem readAll_ne_fuel (om : Omit) (n : Nat) (s : List Byte) : (readAll om n s)
   readAllFuel_ne_fuel om n _ s (by omega)
 
 end Hts.Model.Bam
+
+/-! ### the whole file: header (an external codec, C07) followed by the records -/
+namespace Hts.Model.Bam
+
+/-- The binary header codec as a parameter bundled with the law assumed of it (C07 proves it for the real one):
+decoding an encoded header in front of any data returns the header and leaves the data. `nrefs` is the length of the
+reference list that `Ref`/`MateRef` ids index into. -/
+structure HeaderCodec (H : Type) where
+  encode : H → List Byte
+  decode : List Byte → Option (H × List Byte)
+  nrefs : H → Nat
+  decode_encode : ∀ (h : H) (rest : List Byte), decode (encode h ++ rest) = some (h, rest)
+
+/-- `NewWriter(h)`, `Write` for every record, under the BGZF layer -/
+def writeFile {H : Type} (hc : HeaderCodec H) (h : H) (rs : List Record) : Except Fault (List Byte) :=
+  match encodeAll rs with
+  | .error f => .error f
+  | .ok s => .ok (hc.encode h ++ s)
+
+/-- `NewReader`, `Omit(om)`, `Read` until it fails: the header, the records, how it ended (`none` = io.EOF) -/
+def readFile {H : Type} (hc : HeaderCodec H) (om : Omit) (bytes : List Byte) :
+    Option (H × List Record × Option Fault) :=
+  match hc.decode bytes with
+  | none => none
+  | some (h, rest) => some (h, readAll om (hc.nrefs h) rest)
+
+theorem readFile_writeFile {H : Type} (hc : HeaderCodec H) (om : Omit) (h : H) (rs : List Record)
+    (hwf : ∀ r ∈ rs, WF (hc.nrefs h) r) :
+    ∃ bytes, writeFile hc h rs = .ok bytes ∧
+      readFile hc om bytes = some (h, rs.map (expected om), none) := by
+  obtain ⟨s, hs, hr⟩ := readAll_encodeAll om rs hwf
+  exact ⟨hc.encode h ++ s, by simp [writeFile, hs], by simp [readFile, hc.decode_encode, hr]⟩
+
+end Hts.Model.Bam
